@@ -82,6 +82,21 @@ CLAIMED = {
             "Seeded search over pong plans, ping/keep-alive timing and a link whose writes stall; Ping may return nil only after its own pong was delivered and must return by the end of its context; a keep-alive ping without a timely pong must end the connection within the ping timeout.",
             "Trusted: bubble clock; the scripted server's record of which pong was handed to the client when.",
             "DESIGN.md §6 C43"),
+    "C09": ("exchange", "exploration",
+            "deterministic simulation of the real client flow against the in-tree server flow over a frame pipe with latency and task interleavings; both random streams come from the tape, with short reads, entropy errors and DH exponents steered to shared keys with leading zero bytes; agreement oracle",
+            "Seeded search over both sides' random streams (including injected short reads / read errors and exponents chosen so that the shared key starts with 1-2 zero bytes), permanent and temporary mode, 12 datacenter ids including negative and extreme ones, latencies and interleavings; whenever the client succeeds the server must too, with equal key, key id and salt, non-zero key, id consistent with the key, correct expiry; without entropy faults the exchange must succeed.",
+            "Trusted: fixed RSA keys / the in-tree TestServerRNG prime; frame-level transport (no byte chunking).",
+            "DESIGN.md §6 C09"),
+    "C10": ("exchange", "exploration",
+            "deterministic simulation of the real client flow against (a) a scripted peer with a library of single deviations and (b) a man in the middle in front of the in-tree server altering, replacing, truncating or replaying server messages; never-completes oracle with well-behaved variants as controls",
+            "Seeded search over 22 deviation classes (no private key, untrusted fingerprint, altered nonces at each step, tampered/ truncated/ extended encrypted answer, inner nonces, composite / even / non-safe / 1024- and 2047-bit moduli, unacceptable generators, ten out-of-range g_a shapes, dh fail/retry, wrong hash) and man-in-the-middle edits of each field of each server message; the client must fail for every deviation and succeed, with the peer's key, for the equivalent variants (another safe prime, another acceptable generator).",
+            "Trusted: the deviation library is bounded (statement: 'bounded adversary library'); acceptability of g follows the published quadratic-residue rule; moduli were generated and classified offline (testdata).",
+            "DESIGN.md §6 C10"),
+    "C12": ("exchange", "exploration",
+            "deterministic simulation in simulated time of a peer that goes silent at step 1, 2 or 3 of the exchange, for the bare client flow, mtproto.Conn connect without and with PFS (either exchange) and key regeneration after auth-key-not-found; bounded-liveness oracle",
+            "Seeded search over the silent step x level (bare, connect, PFS perm/temp exchange, regeneration) x exchange timeout x caller deadline (none or far later) x link latency; the call must fail no later than the exchange timeout after the peer received the unanswered request.",
+            "Trusted: bubble clock; 'step started' is taken as the arrival of the request at the peer (never earlier than the client's write).",
+            "DESIGN.md §6 C12"),
     "C16": ("stream", "exploration",
             "deterministic simulation of codecs + transport connection/listener over a chunking byte-stream network with concurrent senders; sequence-equality oracle",
             "Seeded search over codec x handshake/listener mode x obfuscation x read chunking x 1-3 concurrent senders x payload sizes clustered at the length-encoding boundaries; the receiver must get exactly the sent payloads (per-sender order, byte-exact, once), 4-byte frames must surface as *codec.ProtocolErr with that code, and the listener's detected codec must be the client's.",
